@@ -5,6 +5,7 @@ from __future__ import annotations
 
 import csv
 import io
+import re
 import itertools
 import warnings
 
@@ -63,6 +64,10 @@ def tsv_term(k, st):
         if dt == XSD + "integer" and lex.isascii() and lex.isdigit() and (lex == "0" or not lex.startswith("0")):
             return lex
         if dt == XSD + "boolean" and lex in ("true", "false"):
+            return lex
+        if dt == XSD + "integer" and re.fullmatch(r"-[1-9][0-9]*", lex):
+            return lex
+        if dt == XSD + "decimal" and re.fullmatch(r"-?(0|[1-9][0-9]*)\.[0-9]+", lex):
             return lex
     q = "'" if st["sq"] else '"'
     out = [q]
@@ -187,8 +192,10 @@ def gen_term(rng, fmt, profile):
         return ["L", lex, None, None]
     if r < 0.62:
         return ["L", lex, None, rng.choice(LANGS)]
+    if r < 0.66:
+        return ["L", rng.choice(["0", "7", "42", "1000", "-7", "-10"]), XSD + "integer", None]
     if r < 0.70:
-        return ["L", rng.choice(["0", "7", "42", "1000"]), XSD + "integer", None]
+        return ["L", rng.choice(["1.5", "0.50", "10.0", "0.0", "-1.5", "-0.50", "12.345"]), XSD + "decimal", None]
     if r < 0.72:
         return rng.choice([["L", "0.0", XSD + "double", None], ["L", "0.0", XSD + "decimal", None],
                            ["L", "P0D", XSD + "duration", None], ["L", "", XSD + "string", None]])
@@ -270,8 +277,16 @@ class C16(Suite):
                 row = [[v, ["I", "http://e/a"]]]
             rng.shuffle(row)
             rows.append(row)
-        via = "query" if rng.random() < 0.15 else "direct"
-        return self._mk(fmt, None, vars_, rows, rng, via)
+        via = "query" if rng.random() < 0.25 else "direct"
+        case = self._mk(fmt, None, vars_, rows, rng, via)
+        if via == "query":
+            if fmt != "tsv" and self._query_spells_table(case):
+                # a lazily evaluated result may be partly iterated (and asked for its length) before it is serialised
+                case["pre"] = rng.choice([0, 0, 1, 1, 2, 3, 7])
+                case["touch"] = rng.choice([None, None, "len", "bool"])
+            else:
+                case["via"] = "direct"
+        return case
 
     def _mk(self, fmt, ask, vars_, rows, rng, via="direct"):
         return {"fmt": fmt, "ask": ask, "vars": vars_, "rows": rows,
@@ -279,7 +294,7 @@ class C16(Suite):
                           "cross": rng.random() < 0.3},
                 "bytes": rng.random() < 0.75, "via": via,
                 # CSV: 0 byte source (rdflib parser only), 1 text newline="", 2 text newline LF
-                "src": rng.choice([0, 0, 1, 2]) if fmt == "csvp" else rng.choice([1, 2])}
+                "src": rng.choice([0, 0, 1, 2]) if fmt == "csvp" else rng.choice([1, 2]), "pre": 0, "touch": None}
 
     # ------------------------------------------------------------ implementation
     def _result(self, case):
@@ -298,15 +313,17 @@ class C16(Suite):
         r.bindings = [{Variable(k): (None if t is None else build(t)) for k, t in row} for row in case["rows"]]
         return r
 
-    def _via_query(self, case):
-        g = Graph()
+    def _query_text(self, case):
+        """the table as a VALUES query, or None when it cannot be spelled as one"""
         if case["ask"] is not None:
-            return g.query("ASK {}" if case["ask"] else "ASK { <urn:a> <urn:b> <urn:c> }")
+            return "ASK {}" if case["ask"] else "ASK { <urn:a> <urn:b> <urn:c> }"
         vars_ = case["vars"]
         if not vars_ or any(not (v.isascii() and v.replace("_", "a").isalnum()) for v in vars_):
             return None
         lines = []
         for row in case["rows"]:
+            if any(t is None for _, t in row):
+                return None          # a solution of the engine never binds a variable to None
             cells = []
             for v in vars_:
                 t = dict((k, x) for k, x in row).get(v)
@@ -317,17 +334,28 @@ class C16(Suite):
                 else:
                     cells.append(build(t).n3())
             lines.append("(" + " ".join(cells) + ")")
-        q = "SELECT %s WHERE { VALUES (%s) { %s } }" % (" ".join("?" + v for v in vars_), " ".join("?" + v for v in vars_),
-                                                       " ".join(lines))
+        return "SELECT %s WHERE { VALUES (%s) { %s } }" % (" ".join("?" + v for v in vars_), " ".join("?" + v for v in vars_),
+                                                         " ".join(lines))
+
+    def _query_spells_table(self, case):
+        """generation time: the engine's answer to the query is the table of the case"""
+        q = self._query_text(case)
+        if q is None:
+            return False
+        if case["ask"] is not None:
+            return True
         try:
-            r = g.query(q)
+            r = Graph().query(q)
             got = [[tk(b[v]) if v in b else None for v in r.vars] for b in r.bindings]
-            want = [[dict((k, x) for k, x in row).get(v) for v in vars_] for row in case["rows"]]
-            if [str(v) for v in r.vars] != vars_ or got != want:
-                return None
-            return r
+            want = [[dict((k, x) for k, x in row).get(v) for v in case["vars"]] for row in case["rows"]]
+            return [str(v) for v in r.vars] == case["vars"] and got == want
         except Exception:  # noqa: BLE001
-            return None
+            return False
+
+    def _via_query(self, case):
+        """a fresh, still lazy result of the engine"""
+        q = self._query_text(case)
+        return None if q is None else Graph().query(q)
 
     def run_impl(self, case):
         fmt = case["fmt"]
@@ -337,6 +365,14 @@ class C16(Suite):
                 src = io.BytesIO(doc.encode("utf-8")) if case["bytes"] else io.StringIO(doc)
                 return self._obs(Result.parse(src, format="tsv"))
             res = self._result(case)
+            if case.get("pre"):
+                it = iter(res)
+                for _ in range(case["pre"]):
+                    next(it, None)
+            if case.get("touch") == "len":
+                len(res)
+            elif case.get("touch") == "bool":
+                bool(res)
             try:
                 data = res.serialize(format="csv" if fmt == "csvp" else fmt)
             except ResultException:
@@ -366,9 +402,9 @@ class C16(Suite):
         st = case["style"]
         rows = clist(clist(ctuple(cstr(k), copt(t, c_term)) for k, t in row) for row in case["rows"])
         return ("{| c_fmt := %s; c_ask := %s; c_vars := %s; c_rows := %s; "
-                "c_style := {| st_sq := %s; st_esc_all := %s; st_bare := %s; st_cross := %s |}; c_bytes := %s; c_src := %s |}"
+                "c_style := {| st_sq := %s; st_esc_all := %s; st_bare := %s; st_cross := %s |}; c_bytes := %s; c_src := %s; c_pre := %s |}"
                 % (fmt, copt(case["ask"], cbool), clist(cstr(v) for v in case["vars"]), rows,
-                   cbool(st["sq"]), cbool(st["esc_all"]), cbool(st["bare"]), cbool(st["cross"]), cbool(case["bytes"]), cN(case.get("src", 1))))
+                   cbool(st["sq"]), cbool(st["esc_all"]), cbool(st["bare"]), cbool(st["cross"]), cbool(case["bytes"]), cN(case.get("src", 1)), cN(case.get("pre", 0))))
 
     def coq_obs(self, o):
         if o["k"] == "err":
@@ -406,14 +442,22 @@ class C16(Suite):
         return f
 
     def shrink(self, case):
+        for c in self._shrink_raw(case):
+            # a smaller case of a query result must still be a table the engine produces from a VALUES query
+            if c.get("via") != "query" or self._query_spells_table(c):
+                yield c
+
+    def _shrink_raw(self, case):
         rows, vars_ = case["rows"], case["vars"]
         for i in range(len(rows)):
             yield dict(case, rows=rows[:i] + rows[i + 1:])
         for v in vars_:
             if case["fmt"] == "tsv" and len(vars_) == 1:
                 break
-            yield dict(case, vars=[x for x in vars_ if x != v],
-                       rows=[[kv for kv in row if kv[0] != v] for row in rows])
+            c2 = dict(case, vars=[x for x in vars_ if x != v], rows=[[kv for kv in row if kv[0] != v] for row in rows])
+            if len(vars_) == 1:
+                c2.update(via="direct", pre=0)
+            yield c2
         for i, row in enumerate(rows):
             for j, (k, t) in enumerate(row):
                 yield dict(case, rows=rows[:i] + [row[:j] + row[j + 1:]] + rows[i + 1:])
@@ -428,8 +472,12 @@ class C16(Suite):
                         t2[pos] = s[:cut] + s[cut + 1:]
                         if stable(t2) and (t2[0] != "B" or t2[1]):
                             yield dict(case, rows=rows[:i] + [row[:j] + [[k, t2]] + row[j + 1:]] + rows[i + 1:])
-        if case["via"] != "direct":
+        if case["via"] != "direct" and not case.get("pre"):
             yield dict(case, via="direct")
+        if case.get("pre"):
+            yield dict(case, pre=case["pre"] - 1)
+        if case.get("touch"):
+            yield dict(case, touch=None)
 
     def sweep(self):
         """every unbound pattern of a 2x2 table, and every character of the alphabet in every string
@@ -859,7 +907,11 @@ ASSUMPTIONS = [
     "and do not start with '?' (Variable() changes such names before any format is involved)",
     "strings are sequences of Unicode scalar values (no lone surrogates)",
     "TSV: the model has no pyparsing whitespace skipping; on conformant renderings no token is preceded by blanks. "
-    "Bare decimals/doubles/signed numbers are outside the modelled writer (they are always expressible in quoted form)",
+    "The writer family: IRIREF, BLANK_NODE_LABEL, STRING_LITERAL1/2 with any optional ECHARs, and the bare forms true/false, "
+    "[-]INTEGER, [-]DECIMAL in the spelling Literal() keeps; DOUBLE shorthands and +signed numbers are outside it (Literal() "
+    "re-spells their lexical form), long-quoted strings and \\u escapes are not TSV term syntax for the reader",
+    "results of Graph.query are lazily evaluated SELECT results; next() on iter(result) and len()/bool() before serialising are "
+    "part of the case (Result object layer)",
     "XML: the model starts from the element tree with raw strings at the leaves (element nesting and tag recognition are those "
     "of the XML library); XMLGenerator.ignorableWhitespace writes its argument verbatim; a ResultException raised by "
     "Result.serialize is the observation 'refused' (demanded exactly for results with a character outside the XML 1.0 Char "
@@ -875,7 +927,8 @@ RULE = ("results: random result tables: format in {json, xml, tsv, csv read by c
         "bound with p in {.5,.7,.9}, explicit None values (json/csv), forced all-unbound rows and dead/trailing columns, terms: "
         "IRIs, blank nodes, plain/language/typed literals whose strings mix plain characters, XML/JSON/TSV/CSV metacharacters, "
         "entity look-alikes, CR/CRLF, C0/C1 controls, line separators, non-characters and non-BMP characters; ASK true/false; "
-        "Result built directly or by the engine from a VALUES query; TSV rendering style and source kind random; CSV source "
+        "Result built directly or by the engine from a VALUES query (then kept lazy, next() called 0-7 times, len()/bool() asked); "
+        "typed literals incl. negative integers and (negative) decimals; TSV rendering style and source kind random; CSV source "
         "kind in {bytes, text newline='', text newline LF}. csvtable: tables of 0-4 rows x 0-3 fields over 24 atoms (quotes, "
         "commas, CR, LF, CRLF, blanks, line separators, empty) and raw texts of 0-8 atoms, three line iterators. readers: "
         "foreign JSON/XML result documents derived from a valid one by ~12 kinds of perturbation each. dispatch: format names and "
